@@ -120,7 +120,7 @@ func TestC04(t *testing.T) {
 
 func TestC07(t *testing.T) {
 	spec := &GenSpec{Prop: "C07", Backings: []string{"store"}, MaxOps: 40, Holds: true, Reopen: true,
-		Children: exclChildren("C07"), BigBatches: true, BulkPct: 25, Compaction: []int{1, 1, 2, 0}, KeepFiles: true}
+		Children: exclChildren("C07"), BigBatches: true, BulkPct: 25, Compaction: []int{1, 1, 2, 0}, KeepFiles: true, PersistNil: !excluded("persist-nil")}
 	applyExclusions(spec)
 	histCheck(t, spec, oraclesFor[spec.Prop],
 		"store-backed histories with overwrites, deletions, bulk batches spanning levels, all CompactionConcerns, small level parameters, CompactionPercentage extremes, 1-2 buffer pages, sync settings, idle-kind merger pings; after every op collection == reference and store == reference prefix (so content is identical before/after every compaction); after a full compaction (detected from Store.Stats deltas) iteration with IncludeDeletions shows no deletion marker, strictly ascending keys, and no entry above segment level 0 at any nesting level; after closing everything the directory holds one data file. Non-trivial: a compaction happened in the case. Distinct = distinct program hash.",
